@@ -47,6 +47,7 @@ type Profile struct {
 	SizeFlip       bool   // a sink symbol is loaded under a size limit in some nodes
 	EndAfterInput  bool   // end nodes of the shape HALT; INCMP t 1; HALT
 	FallMove       bool   // menu nodes that end in a MOVE behind their INCMP lines
+	NoTplEnd       bool   // now and then a graceful end node has no template at all: the session ends with the bare exit value
 	LangLikeNames  bool   // now and then one node is named like a translation: its name ends in "_<code>" of a language the application has translations for
 	LongMenus      bool   // now and then a node has 14-30 more INCMP lines in front of its own (more than 128 bytes of code behind its HALT)
 	ReloadAfterMap bool   // now and then a mapped symbol is RELOADed behind its MAP, before the page is shown
@@ -716,6 +717,13 @@ func Generate(t *tape.Tape, p Profile) *App {
 		}
 		a.Nodes = append(a.Nodes, c)
 		t.End()
+	}
+	if p.NoTplEnd {
+		for _, n := range a.Nodes {
+			if n.Kind == KEndGraceful && n.Name != a.Root && t.Chance(1, 3) {
+				n.Tpl = map[string]string{}
+			}
+		}
 	}
 	if p.LangLikeNames && len(a.Langs) > 0 && len(a.Nodes) > 2 && t.Chance(1, 3) {
 		// a node called like the translation of something that does not exist: "nab_nor" where there is no "nab"
